@@ -6,6 +6,7 @@ package main
 // contains them (validity oracle) and is the base of the structured mutations.
 
 import (
+	"fmt"
 	"github.com/tetratelabs/wazero/api"
 	"github.com/tetratelabs/wazero/experimental"
 	"github.com/tetratelabs/wazero/verif/wb"
@@ -45,9 +46,10 @@ var featureSets = []featureSet{
 }
 
 type seed struct {
-	Name string
-	Req  api.CoreFeatures
-	B    []byte
+	Name  string
+	Req   api.CoreFeatures
+	B     []byte
+	Light bool // large "one tiny function per instruction" seeds: validity, retype and drop-dependency passes only
 }
 
 var (
@@ -67,7 +69,7 @@ func u32p(v uint32) *uint32 { return &v }
 func buildCorpus() []seed {
 	var out []seed
 	add := func(name string, req api.CoreFeatures, m *wb.Module) {
-		out = append(out, seed{name, req, m.Encode()})
+		out = append(out, seed{Name: name, Req: req, B: m.Encode()})
 	}
 
 	// 0: the empty module
@@ -255,7 +257,7 @@ func buildCorpus() []seed {
 		m2 := &wb.Module{Mem: &wb.Limits{Min: 1}}
 		b := m2.Encode()
 		b = append(b, 11, 9, 1, 2, 0, 0x41, 0, 0x0b, 2, 0xca, 0xfe)
-		out = append(out, seed{"data-active-memidx", fBR, b})
+		out = append(out, seed{Name: "data-active-memidx", Req: fBR, B: b})
 	}
 	{ // data count with no data segments, memory with a maximum, memory.size / memory.grow
 		m := &wb.Module{}
@@ -674,6 +676,124 @@ func buildCorpus() []seed {
 		m.ExportFunc("lp", m.AddFunc(vt(i32), vt(i32), vt(i32), a().I32Const(7).LoopT(ii).LocalGet(1).I32Const(1).Op(0x6a).LocalTee(1).I32Const(3).Op(0x49).BrIf(0).End().B))
 		m.ExportFunc("bv", m.AddFunc(vt(i32), vt(i32), nil, a().Block(i32).I32Const(9).LocalGet(0).BrIf(0).Drop().I32Const(8).End().B))
 		add("typed-branch-targets", fMV|fSIMD, m)
+	}
+	// ---- one tiny exported function per instruction of a family, so that removing the definition the
+	// family depends on (the memory, a table, the data count ...) confronts EVERY opcode's own existence
+	// check (drop-dependency pass). These seeds are large and only used by the light passes.
+	light := func(name string, req api.CoreFeatures, m *wb.Module) {
+		out = append(out, seed{Name: name, Req: req, B: m.Encode(), Light: true})
+	}
+	constOf := func(as *wb.Asm, t byte) {
+		switch t {
+		case i32:
+			as.I32Const(3)
+		case i64:
+			as.I64Const(3)
+		case f32:
+			as.F32Const(0x40400000)
+		case f64:
+			as.F64Const(0x4008000000000000)
+		case v128:
+			as.V128Const(3, 4)
+		}
+	}
+	{ // scalar loads/stores, memory.size/grow, bulk memory
+		m := &wb.Module{}
+		m.Mem = &wb.Limits{Min: 1}
+		m.DataCount = true
+		m.Datas = append(m.Datas, wb.Data{Passive: true, Bytes: []byte{1, 2, 3}})
+		for _, mo := range memOps {
+			as := a().LocalGet(0)
+			if mo.store {
+				constOf(as, mo.t)
+				as.Mem(mo.op, 0, 8)
+				m.ExportFunc(fmt.Sprintf("%02x", mo.op), m.AddFunc(vt(i32), nil, nil, as.B))
+			} else {
+				as.Mem(mo.op, 0, 8).Drop()
+				m.ExportFunc(fmt.Sprintf("%02x", mo.op), m.AddFunc(vt(i32), nil, nil, as.B))
+			}
+		}
+		m.ExportFunc("sz", m.AddFunc(nil, vt(i32), nil, a().MemorySize().B))
+		m.ExportFunc("gr", m.AddFunc(nil, vt(i32), nil, a().I32Const(0).MemoryGrow().B))
+		m.ExportFunc("fi", m.AddFunc(vt(i32), nil, nil, a().LocalGet(0).I32Const(1).I32Const(2).MemoryFill().B))
+		m.ExportFunc("cp", m.AddFunc(vt(i32), nil, nil, a().LocalGet(0).I32Const(0).I32Const(2).MemoryCopy().B))
+		m.ExportFunc("in", m.AddFunc(vt(i32), nil, nil, a().LocalGet(0).I32Const(0).I32Const(2).MemoryInit(0).B))
+		m.ExportFunc("dd", m.AddFunc(nil, nil, nil, a().DataDrop(0).B))
+		light("family-memory-scalar", fBR, m)
+	}
+	{ // every SIMD load/store: plain, extending, splat, zero, lane
+		m := &wb.Module{}
+		m.Mem = &wb.Limits{Min: 1}
+		for _, mo := range simdMemOps {
+			as := a().LocalGet(0)
+			switch {
+			case mo.lanes > 0:
+				as.V128Const(1, 2).SimdMem(mo.op, 0, 4).Raw(0)
+				if !mo.store {
+					as.Drop()
+				}
+			case mo.store:
+				as.V128Const(1, 2).SimdMem(mo.op, 0, 4)
+			default:
+				as.SimdMem(mo.op, 0, 4).Drop()
+			}
+			m.ExportFunc(fmt.Sprintf("%02x", mo.op), m.AddFunc(vt(i32), nil, nil, as.B))
+		}
+		light("family-memory-simd", fSIMD, m)
+	}
+	{ // every atomic instruction (wait with a zero timeout), on a shared memory
+		m := &wb.Module{}
+		m.Mem = &wb.Limits{Min: 1, Max: 1, HasMax: true, Shared: true}
+		for _, ao := range atomicOps() {
+			as := a().LocalGet(0)
+			for _, t := range ao.in[1:] {
+				if ao.op == 1 || ao.op == 2 {
+					// wait: expected value 1 (memory holds 0, so it returns "not equal" at once), timeout 0
+					if t == i64 && ao.op == 1 {
+						as.I64Const(0)
+					} else {
+						constOf(as, t)
+					}
+					continue
+				}
+				constOf(as, t)
+			}
+			as.AtomicMem(ao.op, ao.natural, 8)
+			for range ao.out {
+				as.Drop()
+			}
+			m.ExportFunc(fmt.Sprintf("%02x", ao.op), m.AddFunc(vt(i32), nil, nil, as.B))
+		}
+		m.ExportFunc("fe", m.AddFunc(nil, nil, nil, a().Atomic(3).Raw(0).B))
+		light("family-memory-atomic", fTH, m)
+	}
+	{ // every table-touching instruction, two tables, passive + declarative element segments
+		m := &wb.Module{}
+		m.Tables = []wb.Table{{Elem: fref, Lim: wb.Limits{Min: 2}}, {Elem: fref, Lim: wb.Limits{Min: 2}}}
+		t0 := m.Type(nil, nil)
+		f0 := m.AddFunc(nil, nil, nil, nil)
+		m.Elems = append(m.Elems, wb.Elem{Mode: 1, Funcs: []uint32{f0}}, wb.Elem{Mode: 2, Funcs: []uint32{f0}})
+		for ti := uint32(0); ti < 2; ti++ {
+			sfx := fmt.Sprint(ti)
+			m.ExportFunc("ci"+sfx, m.AddFunc(vt(i32), nil, nil, a().LocalGet(0).CallIndirect(t0, ti).B))
+			m.ExportFunc("tg"+sfx, m.AddFunc(vt(i32), nil, nil, a().LocalGet(0).TableGet(ti).Drop().B))
+			m.ExportFunc("ts"+sfx, m.AddFunc(vt(i32), nil, nil, a().LocalGet(0).RefNull(fref).TableSet(ti).B))
+			m.ExportFunc("tz"+sfx, m.AddFunc(nil, vt(i32), nil, a().TableSize(ti).B))
+			m.ExportFunc("tw"+sfx, m.AddFunc(nil, vt(i32), nil, a().RefNull(fref).I32Const(1).TableGrow(ti).B))
+			m.ExportFunc("tf"+sfx, m.AddFunc(vt(i32), nil, nil, a().LocalGet(0).RefNull(fref).I32Const(1).TableFill(ti).B))
+			m.ExportFunc("ti"+sfx, m.AddFunc(vt(i32), nil, nil, a().LocalGet(0).I32Const(0).I32Const(1).TableInit(0, ti).B))
+			m.ExportFunc("tc"+sfx, m.AddFunc(vt(i32), nil, nil, a().LocalGet(0).I32Const(0).I32Const(1).TableCopy(ti, 1-ti).B))
+		}
+		m.ExportFunc("ed", m.AddFunc(nil, nil, nil, a().ElemDrop(0).B))
+		m.ExportFunc("rf", m.AddFunc(nil, vt(i32), nil, a().RefFunc(f0).RefIsNull().B))
+		light("family-table", fBR, m)
+	}
+	{ // return_call_indirect needs its own feature
+		m := &wb.Module{}
+		m.Tables = []wb.Table{{Elem: fref, Lim: wb.Limits{Min: 1}}}
+		t0 := m.Type(nil, nil)
+		m.ExportFunc("rci", m.AddFunc(vt(i32), nil, nil, a().LocalGet(0).ReturnCallIndirect(t0, 0).B))
+		light("family-table-tail", fTC, m)
 	}
 	return out
 }
